@@ -171,6 +171,55 @@ class StepGen:
         sl = r.choice(self.slices)
         return ReplaceAroundStep(f, t, gf, gt, sl, r.randint(0, max(0, sl.size)), r.random() < 0.3)
 
+    def around_balanced_open_gap(self, doc):
+        """A replace-around step whose gap is *balanced but not flat*: it starts inside one child of a node and ends
+        inside a later child, at the same depth (the cut-off boundary nodes may be invalid by themselves - a list
+        item left empty).  The step's range covers the node (or only its children) and the slice is a wrapper of
+        the node's own type, of a sibling type, or empty.  Such a step must be refused."""
+        from prosemirror.model import Fragment, Slice
+        from prosemirror.transform import ReplaceAroundStep
+        r = self.rng
+        cands = []
+
+        def visit(node, pos, parent, index):
+            if not node.is_leaf and not node.is_text:
+                kids = [k for k in range(node.child_count) if not node.child(k).is_leaf and not node.child(k).is_text]
+                if len(kids) >= 2:
+                    cands.append((pos, node, kids))
+        visit(doc, -1, None, 0)
+        doc.descendants(visit)
+        if not cands:
+            return None
+        pos, node, kids = r.choice(cands)
+        i, j = sorted(r.sample(kids, 2))
+
+        def inside(k, edge):
+            start = pos + 1 + sum(node.child(x).node_size for x in range(k)) + 1
+            ch = node.child(k)
+            idx = r.choice([edge, edge, r.randint(0, ch.child_count)])
+            idx = ch.child_count if idx == "end" else 0 if idx == "start" else idx
+            return start + sum(ch.child(x).node_size for x in range(idx))
+        gf, gt = inside(i, "end"), inside(j, "start")
+        outer = pos >= 0 and r.random() < 0.7
+        f, t = (pos, pos + node.node_size) if outer else (pos + 1, pos + 1 + node.content.size)
+        if r.random() < 0.5:
+            # only part of the node's children: from the start of child i to the end of child j
+            f2 = pos + 1 + sum(node.child(x).node_size for x in range(i))
+            t2 = pos + 1 + sum(node.child(x).node_size for x in range(j + 1))
+            if not outer:
+                f, t = f2, t2
+        if outer:
+            names = [node.type.name] * 3 + [nm for nm in self.info.order if not self.info.is_leaf(nm) and nm not in ("text", self.info.top)]
+            nm = r.choice(names)
+            try:
+                attrs = dict(node.attrs) if nm == node.type.name else {a: json.loads(v) for a, v in self.dg.attrs(nm).items()}
+                sl, k = Slice(Fragment.from_(self.schema.nodes[nm].create(attrs)), 0, 0), 1
+            except Exception:  # noqa: BLE001
+                return None
+        else:
+            sl, k = Slice.empty, 0
+        return ReplaceAroundStep(f, t, gf, gt, sl, k, r.random() < 0.15)
+
     def around_wrap_extended(self, doc):
         """A wrap of a flat run of siblings in a random chain of wrapper types - which may or may not be
         able to hold the gap - extended on both sides: the step's range reaches back to `from` and on to
